@@ -27,12 +27,13 @@ def to_cands(records, rejects):
     for idx, facts in rejects:
         rec = records[idx]
         f = facts["field"]
-        what = "client handshake log field %s = %r, wire/secret says %r (TLS version %s, suite %s, resumed=%s, cause class %s)" % (
+        what = "client handshake log field %s = %r, wire/secret says %r (TLS version %s, suite %s, resumed=%s, cause class %s%s)" % (
             f, rec["log"].get(f, rec["log"].get("ch_sigalg_names") if f == "ch_sigalg_names" else None),
             rec["wire"].get(f, rec["wire"].get("ch_sigalgs") if f == "ch_sigalg_names" else rec["wire"].get("skx_sig_scheme")),
-            rec["vers"], rec["suite"], rec["resumed"], facts.get("cause"))
+            rec["vers"], rec["suite"], rec["resumed"], facts.get("cause"),
+            "; late ClientHello option %s, session cache %s" % (rec["late"], rec["c"]["tickets"]) if rec.get("late") else "")
         case = {"id": rec["id"], "c": rec["c"], "s": rec["s"], "two": rec["second"], "down": 0,
-                "scts": rec["scts"], "skip": rec["skip"], "rwh": rec["rwh"], "rws": rec["rws"]}
+                "scts": rec["scts"], "skip": rec["skip"], "rwh": rec["rwh"], "rws": rec["rws"], "late": rec.get("late", "")}
         cands.append({"sig": sig_of(facts), "what": what, "case": case})
     return cands
 
@@ -112,6 +113,18 @@ def run(ctx):
                 "rewritten_skx_schemes": len({r["wire"].get("skx_sig_scheme") for r in recs if r["rewritten"] and "skx_sig_name" in r["log"]})}
     if scripted["sct_lists_logged"] < 100 or scripted["sct_entries_unparsable"] < 50 or scripted["rewritten_skx_schemes"] < 20:
         raise Machinery("vacuous coverage of the scripted-peer inputs: %s" % scripted)
+    late = {}
+    for r in recs:
+        if r["late"] and "ch_ticket_ext" in r["log"]:
+            k = "%s/%s" % (r["late"], "cache" if r["c"]["tickets"] else "nocache")
+            late[k] = late.get(k, 0) + 1
+    scripted["late_hello_options_logged"] = late
+    scripted["forced_ticket_ext_without_cache_on_wire"] = sum(
+        1 for r in recs if r["late"] in ("ticket", "ticket+sct", "ticket-disabled") and (not r["c"]["tickets"] or r["late"] == "ticket-disabled")
+        and r["wire"].get("ch_ticket_ext") is True)
+    scripted["forced_sct_ext_on_wire"] = sum(1 for r in recs if r["late"] in ("sct", "ticket+sct") and r["wire"].get("ch_scts") is True)
+    if len(late) < 8 or not scripted["forced_ticket_ext_without_cache_on_wire"] or not scripted["forced_sct_ext_on_wire"]:
+        raise Machinery("vacuous coverage of the late ClientHello options: %s" % scripted)
     cov = {"scripted": scripted, "completed": len(done), "resumed": sum(1 for r in done if r["resumed"]),
            "versions": sorted({r["vers"] for r in done}), "suites": len({r["suite"] for r in done}),
            "fields_compared": sum(len(r["log"]) for r in allrecs), "distinct_fields": len(populated)}
